@@ -1108,6 +1108,12 @@ def parse_fns(ty):
             Function('parse_' + ty, IntSort(), BoolSort() if w is None else BitVecSort(w)))
 
 
+@native(r'^<&?&?(str|std::string::String) as PartialEq(<&?&?(str|std::string::String)>)?>::(eq|ne)$', 'string equality: same string identity')
+def str_eq(vm, m, callee, args):
+    a, b = sid_of(vm, dv(vm, args[0])), sid_of(vm, dv(vm, args[1]))
+    return (a == b) if callee.endswith('::eq') else (a != b)
+
+
 @native(r'^core::str::<impl str>::is_empty$|^std::string::String::is_empty$', 'str::is_empty')
 def str_is_empty(vm, m, callee, args):
     return sid_of(vm, args[0]) == 0
